@@ -65,6 +65,12 @@ def child_definition(kind, W):
         return {"StartAt": "Wt", "States": {"Wt": {"Type": "Wait", "Seconds": SLOW, "Next": "C2"}, "C2": T("childfn2", End=True)}}
     if kind == "slow_task":
         return {"StartAt": "C1", "States": {"C1": T("childslow", Next="C2"), "C2": T("childfn2", End=True)}}
+    if kind == "fanout_then_slow_task":
+        # the child has completed a Parallel state earlier and is blocked on a top-level Task when the parent lets go of it
+        return {"StartAt": "Par0", "States": {
+            "Par0": {"Type": "Parallel", "ResultPath": "$.par", "Next": "C1", "Branches": [{"StartAt": "PA", "States": {"PA": {"Type": "Pass", "End": True}}},
+                                                                                     {"StartAt": "PB", "States": {"PB": T("childfn", End=True)}}]},
+            "C1": T("childslow", Next="C2"), "C2": T("childfn2", End=True)}}
     if kind == "wait_then_slow_task":
         # the child has been through a Wait that elapsed normally and is blocked on a Task when the parent lets go of it
         return {"StartAt": "W0", "States": {"W0": {"Type": "Wait", "Seconds": 1, "Next": "C1"}, "C1": T("childslow", Next="C2"), "C2": T("childfn2", End=True)}}
@@ -88,7 +94,7 @@ def child_result(kind, inp):
         return "FAILED", "ChildFail"
     if kind == "slow_wait":
         return "SUCCEEDED", {"second": inp}
-    if kind in ("slow_task", "wait_then_slow_task"):
+    if kind in ("slow_task", "wait_then_slow_task", "fanout_then_slow_task"):
         return "SUCCEEDED", {"second": {"late": True}}
     if kind == "slow_nested":
         return "SUCCEEDED", {"second": [inp, {"late": True}]}
@@ -102,6 +108,8 @@ def child_duration(sc):
         return 0
     if k == "wait_then_slow_task":
         return SLOW + 1
+    if k == "fanout_then_slow_task":
+        return SLOW + sc["child_delay"]
     return SLOW
 
 
@@ -682,7 +690,7 @@ def strategies():
         "form": st.sampled_from(["async", "sync", "sync", "sync2", "sync2", "sdk_sync"]),
         "parent_type": st.sampled_from(["STANDARD", "STANDARD", "STANDARD", "EXPRESS"]),
         "child_type": st.sampled_from(["STANDARD", "STANDARD", "EXPRESS"]),
-        "child": st.sampled_from(["succeed", "succeed", "two_step", "fail_task", "fail_state", "slow_wait", "slow_task", "slow_nested", "wait_then_slow_task"]),
+        "child": st.sampled_from(["succeed", "succeed", "two_step", "fail_task", "fail_state", "slow_wait", "slow_task", "slow_nested", "wait_then_slow_task", "fanout_then_slow_task"]),
         "child_exists": st.sampled_from([True] * 9 + [False]),
         "child_delay": st.sampled_from([0, 0.5, 3, 8]),
         "shape": st.sampled_from(["plain", "plain", "plain", "parallel", "parallel", "map"]),
@@ -861,7 +869,8 @@ def main(tier, seed, replay=None):
     # directed: a synchronous child that is past an elapsed Wait and blocked on a Task when the parent lets go of it (time-out, failing sibling)
     for form in ("sync", "sync2", "sdk_sync"):
         for shape, extra_ in (("plain", {"timeout": 5}), ("parallel", {"timeout": None, "sib_ok": False, "sib_delay": 6}), ("parallel", {"timeout": 5, "sib_ok": True, "sib_delay": 0.25})):
-            sc = dict({"family": "child", "form": form, "parent_type": "STANDARD", "child_type": "EXPRESS" if form == "sdk_sync" else "STANDARD", "child": "wait_then_slow_task", "child_exists": True,
+          for ckind in ("wait_then_slow_task", "fanout_then_slow_task"):
+            sc = dict({"family": "child", "form": form, "parent_type": "STANDARD", "child_type": "EXPRESS" if form == "sdk_sync" else "STANDARD", "child": ckind, "child_exists": True,
                        "child_delay": 0, "shape": shape, "child_input": {"a": 1}, "name": None, "resource_region": "local", "schedule": []}, **extra_)
             try:
                 fails = run_scenario(sc)
